@@ -1,20 +1,39 @@
 """C13 — instance registry and C/C++/Fortran bindings behave as one consistent API.
 
 Proof obligations: Properties/C13.lean — wrapper tables regenerated from IPhreeqcLib.cpp / IPhreeqc_interface_F.cpp /
-IPhreeqc_interface.F90 are well-formed (decide), padfstring contract, registry theorems (ids increasing and never
-reused for every history, dead ids change nothing, double destroy, isolation), settings-store theorems.
-Tie: translator gen_api.py + random and exhaustive create/destroy/set/get sequences through the C API, the C++ object
-and the …F functions side by side vs `pmodel api`; cell-by-cell agreement of the three bindings after real runs."""
+IPhreeqc_interface.F90 / IPhreeqc.h are well-formed and complete, the invalid-instance result of EVERY C function equals the
+result transcribed from the doc comments of IPhreeqc.h (decide), padfstring contract, registry theorems (ids increasing and
+never reused for every history, dead ids change nothing, double destroy, isolation); Properties/C13Store.lean — the settings
+store refines a plain key→value store for every call sequence over any number of instances.
+Tie: translator gen_api.py + random and exhaustive call sequences in which every op names the C function it exercises, through
+the C API, the C++ object and the …F functions side by side vs `pmodel api`; every accessor of the three bindings over live and
+dead ids after real runs."""
 import itertools
+import os
+import shutil
 import struct
+import subprocess
+import tempfile
+from concurrent.futures import ThreadPoolExecutor
 
 import gen_api
 import vlib
 from vlib import shrink_list
 
-SWS = ["outfile", "outstr", "errfile", "errstr", "erron", "logfile", "logstr", "dumpfile", "dumpstr", "selfile", "selstr"]
-NMS = ["out", "err", "log", "dump", "sel"]
+SW = ["OutputFile", "OutputString", "ErrorFile", "ErrorString", "Error", "LogFile", "LogString", "DumpFile", "DumpString",
+      "SelectedOutputFile", "SelectedOutputString"]
+NM = ["Output", "Error", "Log", "Dump", "SelectedOutput"]
+COUNTS = ["GetComponentCount", "GetDumpStringLineCount", "GetErrorStringLineCount", "GetLogStringLineCount",
+          "GetOutputStringLineCount", "GetSelectedOutputColumnCount", "GetSelectedOutputCount", "GetSelectedOutputRowCount",
+          "GetSelectedOutputStringLineCount", "GetWarningStringLineCount"]
+STRINGS = ["GetDumpString", "GetErrorString", "GetLogString", "GetOutputString", "GetSelectedOutputString", "GetWarningString"]
+LINES = ["GetComponent", "GetDumpStringLine", "GetErrorStringLine", "GetLogStringLine", "GetOutputStringLine",
+         "GetSelectedOutputStringLine", "GetWarningStringLine"]
+TEXTFN = ["AccumulateLine", "AddError", "AddWarning"]
+VOIDS = ["OutputAccumulatedLines", "OutputErrorString", "OutputWarningString"]
+CAPS = [0, 1, 7, 13, 48, 80, 300]
 FBUF = 48
+VIA = ["c", "f", "p"]
 
 
 def hexs(s):
@@ -27,116 +46,108 @@ def gen_seq(rng, n):
     for _ in range(n):
         ids = list(range(-1, ncreated + 2)) + [rng.choice([-5, 100, 2 ** 31 - 1])]
         i = rng.choice(ids) if rng.random() < 0.25 else (rng.randrange(ncreated) if ncreated else 0)
+        via = rng.choice(VIA)
         r = rng.random()
-        if r < 0.12 or ncreated == 0:
+        if r < 0.10 or ncreated == 0:
             ops.append(rng.choice(["create", "create", "createcpp", "createf"]))
             ncreated += 1
-        elif r < 0.18:
-            ops.append(f"{rng.choice(['destroy', 'destroy', 'destroycpp'])} {i}")
-        elif r < 0.35:
-            ops.append(f"setsw {rng.choice(SWS)} {i} {rng.choice([0, 1, 1, 2, -1])}")
-        elif r < 0.55:
-            ops.append(f"getsw {rng.choice(SWS)} {i}")
+        elif r < 0.15:
+            ops.append(f"{rng.choice(['destroy', 'destroy', 'destroycpp', 'destroyf'])} {i}")
+        elif r < 0.28:
+            ops.append(f"g4 {via} Set{rng.choice(SW)}On {i} {rng.choice([0, 1, 1, 2, -1])}")
+        elif r < 0.40:
+            ops.append(f"g1 Get{rng.choice(SW)}On {i}")
+        elif r < 0.50:
+            v = rng.choice(["NULL", "-", hexs("a.out"), hexs("my file.sel"), hexs("x" * 60), hexs("é.txt"), hexs("y" * 300)])
+            ops.append(f"g5 {via} Set{rng.choice(NM)}FileName {i} {v}")
+        elif r < 0.62:
+            ops.append(f"g2 Get{rng.choice(NM)}FileName {i} {rng.choice(CAPS)}")
         elif r < 0.68:
-            v = rng.choice(["NULL", "-", hexs("a.out"), hexs("my file.sel"), hexs("x" * 60), hexs("é.txt")])
-            ops.append(f"setname {rng.choice(NMS)} {i} {v}")
-        elif r < 0.85:
-            ops.append(f"getname {rng.choice(NMS)} {i}")
+            ops.append(f"g4 {via} SetCurrentSelectedOutputUserNumber {i} {rng.choice([0, 1, 2, 5, 77, -1, -100])}")
+        elif r < 0.72:
+            ops.append(f"g1 GetCurrentSelectedOutputUserNumber {i}")
+        elif r < 0.76:
+            ops.append(f"g1 {rng.choice(COUNTS + ['ClearAccumulatedLines', 'RunAccumulated'])} {i}")
+        elif r < 0.80:
+            ops.append(f"g2 {rng.choice(STRINGS)} {i} 0")
+        elif r < 0.84:
+            ops.append(f"g3 {rng.choice(LINES)} {i} {rng.choice([-1, 0, 1, 3])} {rng.choice(CAPS)}")
+        elif r < 0.87:
+            ops.append(f"g5 {via} {rng.choice(TEXTFN)} {i} {hexs('TITLE ' + 'w' * rng.choice([1, 5, 70]))}")
+        elif r < 0.89:
+            ops.append(f"g6 {via} {rng.choice(VOIDS)} {i}")
+        elif r < 0.91:
+            ops.append(rng.choice([f"setcb {rng.choice(['c', 'p', 'f', 'fc'])} {i}", f"nth {i} {rng.choice([-1, 0, 1, 2])}",
+                                   f"cell {i} {rng.choice([-1, 0, 1])} {rng.choice([-1, 0, 3])}", "version"]))
         elif r < 0.93:
-            ops.append(f"setcur {i} {rng.choice([0, 1, 2, 5, 77, -1, -100])}")
+            ops.append(rng.choice([f"g5 {via} LoadDatabase {i} {hexs('/nonexistent/x.dat')}", f"g5 {via} LoadDatabaseString {i} {hexs('XYZ' + chr(10))}",
+                                   f"g5 {via} RunString {i} {hexs('TITLE t' + chr(10))}", f"g5 {via} RunFile {i} {hexs('/nonexistent/in.pqi')}",
+                                   f"loadbad {via} {i}"]))
+        elif r < 0.955:
+            ops.append(f"loaddb {via} {i}")
+        elif r < 0.985:
+            f = rng.choice(["-", "-", hexs("user.sel"), hexs("other name.sel")])
+            ops.append(f"defsel {via} {i} {rng.choice([1, 2, 5, 5, 77])} {f}")
         else:
-            ops.append(f"getcur {i}")
+            ops.append(f"pad {hexs(rng.choice(['', 'abc', 'x' * 47, 'x' * 48, 'x' * 49, 'line with  blanks ', 'q' * 500]))} {rng.choice(CAPS)}")
     return ops
 
 
-def relations(line):
-    """C / C++ / Fortran agreement on one output line of ph_api; returns error text or None"""
-    parts = line.split(" | ")
-    if len(parts) == 1:
-        return None
-    c = parts[0].split()
-    cpp = parts[1].split()[1:]
-    f = parts[2].split()[1:]
-    if c[0] == "I":
-        live = cpp[0] != "-77"
-        if live and cpp[0] != c[1]:
-            return f"C returned {c[1]}, C++ method {cpp[0]}"
-        if f[0] != c[1]:
-            return f"C returned {c[1]}, Fortran glue {f[0]}"
-        if not live and c[1] != "-6":
-            return f"dead id returned {c[1]} instead of IPQ_BADINSTANCE"
-    elif c[0] == "S":
-        cs = b"" if c[1] == "-" else bytes.fromhex(c[1])
-        if cpp[0] != "dead" and cpp[0] != c[1]:
-            return "C string differs from C++ string"
-        buf, ln = f[0].split(":")
-        fb = bytes.fromhex(buf)
-        cap = len(fb)
-        if int(ln) != len(cs):
-            return f"Fortran reported length {ln}, string length {len(cs)}"
-        exp = cs[:cap] + b" " * max(0, cap - len(cs))
-        if fb != exp:
-            return "Fortran buffer is not the blank-padded string"
-    return None
-
-
-def seq_case(ctx, exe, ops):
-    text = "\n".join(ops) + "\n"
-    r = ctx.run_harness(exe, text)
-    if r.returncode != 0:
-        return ("crash", r.returncode, r.stderr[-300:])
-    impl = r.stdout.splitlines()
-    model = ctx.pmodel("api", text)
-    if len(impl) != len(model):
-        return ("len", len(impl), len(model))
-    for k, (a, b) in enumerate(zip(impl, model)):
-        if a.split(" | ")[0] != b:
-            return ("diff", k, a, b)
-        rel = relations(a)
-        if rel:
-            return ("binding", k, a, rel)
-    return None
-
-
-RUN_INPUT = """SOLUTION 1
- pH 7
- Na 1
- Cl 1
-SOLUTION 2
- pH 8
- Ca 2
- Cl 4
-SELECTED_OUTPUT 1
- -totals Na Ca
- -molalities Na+ Cl-
-USER_PUNCH 1
- -headings s i missing
- 10 PUNCH "txt", SIM_NO
-SELECTED_OUTPUT 3
- -reset false
- -pH
-END
-USE solution 1
-REACTION 1
- NaCl 1
- 0.1 0.2
-END
-"""
+def gen_seq_sel(rng, n):
+    """histories about the per-user-number maps: loaded instances, SELECTED_OUTPUT definitions with and without -file,
+    redefinitions, file switch on/off per number, user-set names, reloads (which reset the switches but not the names)"""
+    ops = ["create", rng.choice(["create", "createcpp"])]
+    for i in (0, 1):
+        if rng.random() < 0.85:
+            ops.append(f"loaddb {rng.choice(VIA)} {i}")
+    nums = [1, 2, 5, 77]
+    for _ in range(n):
+        i = rng.choice([0, 0, 1, 1, 2, -1])
+        via = rng.choice(VIA)
+        r = rng.random()
+        if r < 0.22:
+            f = rng.choice(["-", "-", hexs("user.sel"), hexs("other name.sel")])
+            ops.append(f"defsel {via} {i} {rng.choice(nums)} {f}")
+        elif r < 0.40:
+            ops.append(f"g4 {via} SetCurrentSelectedOutputUserNumber {i} {rng.choice(nums + [0, 3, -1])}")
+        elif r < 0.52:
+            ops.append(f"g4 {via} SetSelectedOutput{rng.choice(['File', 'String'])}On {i} {rng.choice([0, 1, 1])}")
+        elif r < 0.62:
+            ops.append(f"g5 {via} SetSelectedOutputFileName {i} {rng.choice(['NULL', '-', hexs('set by user.sel'), hexs('z' * 70)])}")
+        elif r < 0.80:
+            ops.append(f"g2 GetSelectedOutputFileName {i} {rng.choice(CAPS)}")
+        elif r < 0.88:
+            ops.append(f"g1 GetSelectedOutput{rng.choice(['File', 'String'])}On {i}")
+        elif r < 0.91:
+            ops.append(f"g1 GetCurrentSelectedOutputUserNumber {i}")
+        elif r < 0.94:
+            ops.append(rng.choice([f"loaddb {via} {i}", f"loadbad {via} {i}"]))
+        elif r < 0.97:
+            ops.append(rng.choice([f"g5 {via} RunString {i} {hexs('TITLE t' + chr(10))}", f"g1 RunAccumulated {i}",
+                                   f"g5 {via} AccumulateLine {i} {hexs('TITLE acc')}"]))
+        else:
+            ops.append(rng.choice([f"destroy {i}", "create", f"nth {i} {rng.choice([0, 1, 2])}", f"g1 GetSelectedOutputCount {i}"]))
+    return ops
 
 
 def unhexd(h):
     return struct.unpack(">d", bytes.fromhex(h))[0]
 
 
-def cell_relations(line, row, col):
+def cell_relations(line):
     parts = line.split(" | ")
     c = parts[0].split()[1:]
     cpp = parts[1].split()[1:]
     v2 = parts[2].split()[1:]
     f = parts[3].split()[1:]
-    if cpp[0] != "-77" and c != cpp:
+    rc = int(c[0])
+    if cpp[0] == "-77":          # id not live: every binding answers IPQ_BADINSTANCE
+        if rc != -6 or int(v2[0]) != -6 or int(f[0]) != -6:
+            return f"id not live: result codes C {rc}, Value2 {v2[0]}, ValueF {f[0]} (expected IPQ_BADINSTANCE = -6 from all)"
+        return None
+    if c != cpp:
         return f"C {c} vs C++ {cpp}"
-    rc, var = int(c[0]), c[1]
+    var = c[1]
     # documented contract (C05): a failing accessor returns its error code and an error-typed VAR carrying it
     if rc != 0 and var != f"X{rc}":
         return f"result code {rc} but VAR is {var}, not the error-typed VAR"
@@ -169,66 +180,195 @@ def cell_relations(line, row, col):
     return None
 
 
-def run_cells(ctx, exe):
-    """after a real run: every (row, col) incl. out-of-range through the C API, the C++ object, Value2 and ValueF"""
-    db = hexs(str(vlib.REPO / "database" / "phreeqc.dat"))
-    ops = ["create", "createcpp", f"load 1 {db}", "setsw outstr 1 1", "setcur 1 1", "setsw selstr 1 1", f"run 1 {hexs(RUN_INPUT)}"]
-    checks = []
-    for cur in (1, 3, 2, 0):
-        ops.append(f"setcur 1 {cur}")
-        checks.append(("skip",))
-        ops.append("counts 1")
-        checks.append(("counts", cur))
-        for r in range(-1, 6):
-            for c in range(-2, 13):
-                ops.append(f"cell 1 {r} {c}")
-                checks.append(("cell", r, c))
-        for n in range(-1, 6):
-            for k in ("sel", "out", "comp"):
-                ops.append(f"line 1 {k} {n}")
-                checks.append(("line", k, n))
-    # ids that are not live (never issued, negative, destroyed): every binding must give the invalid-instance result, and
-    # the Fortran glue must pass it on unchanged (no index shift / heading-row subtraction applied to an error code)
-    ops.append("destroy 0")
-    checks.append(("skip",))
-    for dead in (0, 99, -1, -6):
-        ops.append(f"counts {dead}")
-        checks.append(("deadcounts", dead))
-    r = ctx.run_harness(exe, "\n".join(ops) + "\n", timeout=120)
+def relations(op, line):
+    """C / C++ / Fortran agreement on one output line of ph_api; returns error text or None"""
+    parts = line.split(" | ")
+    if len(parts) == 1:
+        return "Fortran glue wrote beyond the buffer" if line.endswith(":OVERRUN") else None
+    if op.startswith("cell"):
+        return cell_relations(line)
+    c = parts[0].split()
+    cpp = parts[1].split()[1:]
+    f = parts[2].split()[1:]
+    if c[0] == "I":
+        live = cpp[0] != "-77"
+        cv = int(c[1])
+        if live and cpp[0] != c[1]:
+            return f"C returned {c[1]}, C++ method {cpp[0]}"
+        # the one documented difference: the Fortran row count leaves out the heading row
+        expf = cv - 1 if (op.split()[1] == "GetSelectedOutputRowCount" and cv > 0) else cv
+        if int(f[0]) != expf:
+            return f"C returned {c[1]}, Fortran glue {f[0]} (expected {expf})"
+    elif c[0] == "S":
+        cs = b"" if c[1] == "-" else bytes.fromhex(c[1])
+        if cpp[0] != "dead" and cpp[0] != c[1]:
+            return "C string differs from C++ string"
+        if f[0] == "-":
+            return None
+        w = f[0].split(":")
+        if len(w) > 2:
+            return "Fortran glue wrote beyond the buffer"
+        fb = b"" if w[0] == "-" else bytes.fromhex(w[0])
+        cap = len(fb)
+        if int(w[1]) != len(cs):
+            return f"Fortran reported length {w[1]}, string length {len(cs)}"
+        if fb != cs[:cap] + b" " * max(0, cap - len(cs)):
+            return "Fortran buffer is not the (truncated) blank-padded string"
+    return None
+
+
+class Runner:
+    """runs op lists in a scratch directory (runs with file switches on create files named after the defaults)"""
+
+    def __init__(self, ctx, exe):
+        self.ctx, self.exe = ctx, exe
+        self.dir = tempfile.mkdtemp(prefix="c13_")
+        self.env = dict(os.environ, PH_DB=str(vlib.REPO / "database" / "phreeqc.dat"))
+
+    def close(self):
+        shutil.rmtree(self.dir, ignore_errors=True)
+
+    def harness(self, text, timeout=120):
+        d = tempfile.mkdtemp(dir=self.dir)
+        try:
+            return subprocess.run([str(self.exe)], input=text, text=True, capture_output=True, timeout=timeout, env=self.env, cwd=d)
+        finally:
+            shutil.rmtree(d, ignore_errors=True)
+
+    def case(self, ops):
+        text = "\n".join(ops) + "\n"
+        r = self.harness(text)
+        if r.returncode != 0:
+            return ("crash", r.returncode, r.stderr[-300:])
+        impl = r.stdout.splitlines()
+        model = self.ctx.pmodel("api", text)
+        if len(impl) != len(model):
+            return ("len", len(impl), len(model))
+        for k, (a, b) in enumerate(zip(impl, model)):
+            if a.startswith("bad-op") or b.startswith("bad-op"):
+                return ("bad-op", k, ops[k], a, b)
+            first = a.split(" | ")[0]
+            if b != "N" and not (first == b or (ops[k].startswith("cell") and first.startswith(b + " "))):
+                return ("diff", k, ops[k], a, b)
+            rel = relations(ops[k], a)
+            if rel:
+                return ("binding", k, ops[k], a, rel)
+        return None
+
+
+RUN_INPUT = """SOLUTION 1
+ pH 7
+ Na 1
+ Cl 1
+SOLUTION 2
+ pH 8
+ Ca 2
+ Cl 4
+SELECTED_OUTPUT 1
+ -totals Na Ca
+ -molalities Na+ Cl-
+USER_PUNCH 1
+ -headings s i missing a_heading_that_is_longer_than_the_fortran_buffer_of_48_characters
+ 10 PUNCH "txt", SIM_NO, , "a string value that is longer than the fortran buffer of 48 characters"
+SELECTED_OUTPUT 3
+ -reset false
+ -pH
+USER_PRINT
+ 10 PRINT "callback", CALLBACK(2, 3, "abc")
+DUMP
+ -solution 1
+KNOBS
+ -logfile true
+END
+USE solution 1
+REACTION 1
+ NaCl 1
+ 0.1 0.2
+END
+SOLUTION 3
+ pH 7
+ Na 1
+ Cl 1
+EQUILIBRIUM_PHASES 3
+ Fluorite 0 0
+END
+"""
+
+
+def scenario(live_ids):
+    """after real runs on two instances: every accessor of the three bindings, over live and dead ids, index ranges that
+    include -1 and beyond the end (1-based shift of every indexed Fortran accessor), buffers shorter than the strings"""
+    ops = ["create", "createcpp", "createf", "destroy 1"]
+    for i in live_ids:
+        ops += [f"loaddb c {i}", f"g4 c SetOutputStringOn {i} 1", f"g4 f SetDumpStringOn {i} 1", f"g4 p SetLogStringOn {i} 1",
+                f"g4 c SetSelectedOutputStringOn {i} 1", f"setcb {'c' if i == 0 else 'f'} {i}",
+                f"g5 c AccumulateLine {i} {hexs('TITLE accumulated')}", f"g5 f AddWarning {i} {hexs('a warning added by hand')}",
+                f"runsel c {i} {hexs(RUN_INPUT)} 1 3"]
+    probes = []
+    for i in live_ids + [1, 99, -1, -6]:
+        for cur in ((1, 3, 2, 0) if i in live_ids else (1,)):
+            if i in live_ids:
+                probes.append(f"g4 c SetCurrentSelectedOutputUserNumber {i} {cur}")
+            probes += [f"g1 {n} {i}" for n in COUNTS]
+            probes += [f"g1 Get{k}On {i}" for k in SW] + [f"g1 GetCurrentSelectedOutputUserNumber {i}"]
+            probes += [f"g2 Get{k}FileName {i} {cap}" for k in NM for cap in (5, 48)]
+            probes += [f"g2 {n} {i} 0" for n in STRINGS]
+            for n in LINES:
+                for k in range(-1, 7):
+                    probes.append(f"g3 {n} {i} {k} {(5, 48, 300)[k % 3]}")
+            probes += [f"nth {i} {k}" for k in range(-1, 4)]
+            for r in range(-1, 6):
+                for c in range(-2, 14):
+                    probes.append(f"cell {i} {r} {c}")
+            probes += [f"g6 {v} {n} {i}" for n in VOIDS for v in VIA]
+    probes += ["version"]
+    return ops, probes
+
+
+def run_scenario(ctx, runner):
+    ops, probes = scenario([0, 2])
+    r = runner.harness("\n".join(ops + probes) + "\n", timeout=300)
     if r.returncode != 0:
-        return 0, ("crash", r.stderr[-300:]), ops
-    out = r.stdout.splitlines()[7 - 0:]
-    # first 7 ops each print one line
+        return 0, ("crash", r.returncode, r.stderr[-300:]), ops
     out = r.stdout.splitlines()
-    res = out[7:]
+    model = ctx.pmodel("api", "\n".join(ops + probes) + "\n")
+    if len(out) != len(ops) + len(probes) or len(model) != len(out):
+        return 0, ("len", len(out), len(model), len(ops) + len(probes)), ops
     n = 0
-    for chk, ln in zip(checks, res):
-        n += 1
-        if chk[0] == "skip":
+    seen = {"nonempty_strings": 0, "truncated": 0, "dead_probes": 0, "live_probes": 0}
+    for k, (op, ln, md) in enumerate(zip(ops + probes, out, model)):
+        if k < len(ops):
+            if op.startswith("runsel") and ln != "I 0":
+                return n, ("setup", op[:40], ln, "the scenario's run reported errors"), ops
             continue
-        if chk[0] == "cell":
-            e = cell_relations(ln, chk[1], chk[2])
-            if e:
-                return n, ("cell", chk, ln, e), ops
-        elif chk[0] == "line":
-            e = relations(ln)
-            if e:
-                return n, ("line", chk, ln, e), ops
-        elif chk[0] == "deadcounts":
-            t = ln.split()
-            vals = {t[i]: (int(t[i + 1]), int(t[i + 2]), int(t[i + 3])) for i in range(1, len(t), 4)}
-            for k, (c, cpp, f) in vals.items():
-                if f != c or (k in ("rows", "cols", "errlines", "comps", "selcount") and c != -6):
-                    return n, ("deadcounts", chk, ln, f"{k}: id {chk[1]} is not live: C {c} F {f} (expected both IPQ_BADINSTANCE = -6 "
-                                                      f"or, for string accessors, equal)"), ops
-        else:
-            t = ln.split()
-            vals = {t[i]: (int(t[i + 1]), int(t[i + 2]), int(t[i + 3])) for i in range(1, len(t), 4)}
-            for k, (c, cpp, f) in vals.items():
-                expf = c - 1 if (k == "rows" and c > 0) else c
-                if c != cpp or f != expf:
-                    return n, ("counts", chk, ln, f"{k}: C {c} C++ {cpp} F {f} (expected F {expf})"), ops
+        n += 1
+        if ln.startswith("bad-op") or md.startswith("bad-op"):
+            return n, ("bad-op", op, ln, md), ops
+        first = ln.split(" | ")[0]
+        if md != "N":
+            seen["dead_probes" if " | cpp -77" in ln or " | cpp dead" in ln else "live_probes"] += 1
+            if not (first == md or (op.startswith("cell") and first.startswith(md + " "))):
+                return n, ("model", op, ln, md), ops
+        e = relations(op, ln)
+        if e:
+            return n, ("binding", op, ln, e), ops
+        if ln.startswith("S ") and " | f " in ln and ln.split(" | f ")[1] != "-":
+            w = ln.split(" | f ")[1].split(":")
+            cs = ln.split()[1]
+            if cs != "-":
+                seen["nonempty_strings"] += 1
+                if len(bytes.fromhex(cs)) > (len(w[0]) // 2 if w[0] != "-" else 0):
+                    seen["truncated"] += 1
+    ctx.cov["scenario"] = seen
+    if seen["nonempty_strings"] < 50 or seen["truncated"] < 10 or seen["dead_probes"] < 100:
+        return n, ("vacuous", seen, "", "the accessor scenario no longer reaches non-empty / truncated strings or dead ids"), ops
     return n, None, ops
+
+
+ALPHABET = ["create", "createcpp", "destroy 0", "destroyf 1", "g4 c SetOutputFileOn 0 1", "g1 GetOutputFileOn 0", "g1 GetOutputFileOn 1",
+            "g5 f SetOutputFileName 1 " + hexs("q"), "g2 GetOutputFileName 1 48", "g4 p SetCurrentSelectedOutputUserNumber 0 -1",
+            "g4 c SetCurrentSelectedOutputUserNumber 0 2", "g1 GetCurrentSelectedOutputUserNumber 0", "g2 GetSelectedOutputFileName 0 48",
+            "g4 f SetSelectedOutputFileOn 0 1", "g1 GetSelectedOutputFileOn 0", "loadbad c 0"]
 
 
 def run(ctx):
@@ -237,65 +377,91 @@ def run(ctx):
     ok = ctx.prove(["PhreeqcVerif.Properties.C13", "PhreeqcVerif.Properties.C13Store"])
     ctx.build_lib()
     exe = ctx.build_harness("ph_api")
-    nseq = ctx.n(300, 20000)
-    if not ok:
-        nseq = max(nseq, 5000)
-    evals = 0
-    distinct = set()
-    hist = {}
-    seqs = [gen_seq(ctx.rng, ctx.rng.randint(2, 40)) for _ in range(nseq)]
-    if ctx.tier == "thorough" or not ok:
-        # exhaustive: all sequences of length <= 4 over a 12-op alphabet
-        alpha = ["create", "createcpp", "destroy 0", "destroy 1", "setsw outfile 0 1", "getsw outfile 0", "getsw outfile 1",
-                 "setname out 1 " + hexs("q"), "getname out 1", "setcur 0 -1", "getcur 0", "getname sel 0"]
-        for L in range(1, 5):
-            for t in itertools.product(alpha, repeat=L):
-                seqs.append(list(t))
-        ctx.cov["exhaustive_alphabet"] = alpha
-    for ops in seqs:
-        evals += 1
-        for o in ops:
-            hist[o.split()[0]] = hist.get(o.split()[0], 0) + 1
-        distinct.add(tuple(ops))
-        res = seq_case(ctx, exe, ops)
-        if evals <= 2:
-            ctx.sample({"ops": ops[:10]})
-        if res is not None:
-            small = shrink_list(ops, lambda sub: seq_case(ctx, exe, sub) is not None)
-            res = seq_case(ctx, exe, small)
-            ctx.violation(f"C API / C++ / Fortran / model disagree: {res}", {"ops": small, "result": res})
-            break
-    ncell, bad, ops = run_cells(ctx, exe)
-    if bad:
-        ctx.violation(f"bindings disagree on a selected-output accessor: {bad}", {"cell_ops": ops[:8], "result": bad})
-    ctx.cov["evaluations"] = evals + ncell
-    ctx.cov["distinct_nontrivial"] = len(distinct)
-    ctx.cov["accessor_relations_checked"] = ncell
-    ctx.cov["op_histogram"] = hist
-    ctx.cov["rule"] = ("seeded random sequences of create (C / C++ constructor / Fortran glue) / destroy / set / get over several "
-                       "instances incl. never-issued, negative, destroyed and double-destroyed ids, NULL and empty names, negative "
-                       "user numbers: every op through the C API, getters also through the C++ object and the …F functions; C "
-                       "result compared with pmodel api; distinct = distinct op lists. Then after a real run every (row, col) in "
-                       "-1..5 x -2..12 for four user numbers through GetSelectedOutputValue/C++/Value2/ValueF, counts and lines.")
+    runner = Runner(ctx, exe)
+    try:
+        explore(ctx, runner, ok)
+    finally:
+        runner.close()
     if not ok and not ctx.violations:
         ctx.violation("proof obligation of C13 no longer checks and no failing input was found",
                       {"broken": ctx.proof_broken}, found_input=False)
 
 
+def explore(ctx, runner, ok):
+    nseq = ctx.n(600, 20000)
+    if not ok:
+        nseq = max(nseq, 5000)
+    hist = {}
+    seqs = [(gen_seq_sel if k % 4 == 3 else gen_seq)(ctx.rng, ctx.rng.randint(2, 40)) for k in range(nseq)]
+    if ctx.tier == "thorough" or not ok:
+        # exhaustive: all sequences of length <= 4 over the alphabet
+        for L in range(1, 5):
+            for t in itertools.product(ALPHABET, repeat=L):
+                seqs.append(list(t))
+        ctx.cov["exhaustive_alphabet"] = ALPHABET
+    else:
+        for L in range(1, 3):
+            for t in itertools.product(ALPHABET, repeat=L):
+                seqs.append(list(t))
+        ctx.cov["exhaustive_alphabet_length_le_2"] = ALPHABET
+    for ops in seqs:
+        for o in ops:
+            w = o.split()
+            key = w[0] + (":" + (w[2] if w[0] in ("g4", "g5", "g6") else w[1]) if w[0][0] == "g" else "")
+            hist[key] = hist.get(key, 0) + 1
+    ctx.sample({"ops": seqs[0][:10]})
+    ctx.sample({"ops": seqs[1][:10]})
+    evals = 0
+    distinct = set()
+    with ThreadPoolExecutor(12) as ex:
+        for ops, res in zip(seqs, ex.map(runner.case, seqs, chunksize=16)):
+            evals += 1
+            distinct.add(tuple(ops))
+            if res is not None:
+                small = shrink_list(ops, lambda sub: runner.case(sub) is not None)
+                res = runner.case(small)
+                ctx.violation(f"C API / C++ / Fortran / model disagree: {res}", {"ops": small, "result": res})
+                break
+    ncell, bad, ops = run_scenario(ctx, runner)
+    if bad:
+        ctx.violation(f"bindings disagree on an accessor (or differ from the documented invalid-instance result): {bad}",
+                      {"scenario_ops": ops[:8], "result": bad})
+    ctx.cov["evaluations"] = evals + ncell
+    ctx.cov["distinct_nontrivial"] = len(distinct)
+    ctx.cov["accessor_relations_checked"] = ncell
+    ctx.cov["op_histogram"] = dict(sorted(hist.items()))
+    ctx.cov["functions_exercised"] = len([k for k in hist if k[0] == "g"])
+    ctx.cov["rule"] = ("seeded random sequences (2-40 ops) in which every op names the C function it goes through: create/destroy by the "
+                       "three bindings, every Set*/Get* pair (setters through one binding chosen at random, getters through all three), "
+                       "LoadDatabase (real and failing), SELECTED_OUTPUT definitions with and without -file, text/line/count "
+                       "accessors, Output*, callbacks, padfstring; ids never issued / negative / destroyed, NULL and empty names, "
+                       "names longer than the Fortran buffer, buffer lengths 0..300; C result compared with pmodel api (dead ids: "
+                       "documented invalid-instance result of every function), bindings compared with each other; distinct = distinct "
+                       "op lists. Then the accessor scenario: after real runs on two instances every accessor x 4 user numbers x "
+                       "index -1..6 x three buffer sizes, every (row, col) in -1..5 x -2..13, on 2 live and 4 dead ids.")
+
+
 def replay(ctx, data):
     ctx.build_lib()
     exe = ctx.build_harness("ph_api")
-    if "ops" in data:
-        res = seq_case(ctx, exe, data["ops"])
-        print("replay:", res)
-        if res is not None:
-            ctx.violation("replayed sequence still disagrees", data)
-    else:
-        run(ctx)
+    runner = Runner(ctx, exe)
+    try:
+        if "ops" in data:
+            res = runner.case(data["ops"])
+            print("replay:", res)
+            if res is not None:
+                ctx.violation("replayed sequence still disagrees", data)
+        else:
+            ncell, bad, ops = run_scenario(ctx, runner)
+            print("replay (accessor scenario):", bad)
+            if bad:
+                ctx.violation("replayed accessor scenario still disagrees", data)
+    finally:
+        runner.close()
 
 
 MANIFEST = dict(
-    technique='Lean 4: decide over wrapper tables regenerated from the C/Fortran glue sources, registry and settings-store theorems; op-sequence correspondence through the three bindings',
-    text='Theorems (Properties/C13.lean, C13Store.lean): all 73 C wrappers and 68 Fortran glue functions regenerated from the current source have the documented forwarding shape (method, argument order, bool conversion, result-code translation, invalid-instance result, 1-based shifts, padding, heading-row subtraction); bind(C) names/arity of the .F90 module match; padfstring contract; ids strictly increasing and never reused for every history; dead/negative/unissued ids change nothing; double destroy; per-instance isolation; set/get store laws and defaults. Tie: translator re-run every check + random (quick) and exhaustive length<=4 (thorough) call sequences through C API, C++ object and F functions vs pmodel api; cell-by-cell accessor agreement after a real run.',
-    note='Trusted: gen_api.py regex extraction (fails closed on unrecognised functions; callback setters are outside the table), harness/ph_api.cpp. No Fortran compiler: the .F90 module is checked textually; the F functions are called from C++.',
+    technique='Lean 4: decide over wrapper/declaration/documentation tables regenerated from the C and Fortran glue sources and IPhreeqc.h, registry theorems, refinement of the settings store; op-sequence correspondence through the three bindings',
+    text='Theorems (Properties/C13.lean, C13Store.lean): all 77 C functions of IPhreeqcLib.cpp and all 69 glue functions of IPhreeqc_interface_F.cpp (= the declarations of IPhreeqc.h / IPhreeqc_interface_F.h, completeness proved) have the documented forwarding shape (method, argument order, bool conversion, result-code translation, 1-based shifts, padding, guarded heading-row subtraction); for EVERY C function the invalid-instance branch equals the result transcribed by hand from the doc comments of IPhreeqc.h, and that transcription agrees with a mechanical reading of each doc block (wrappers_match_documentation, documentation_table_matches_header); the functions shifted by the glue are exactly those documented as one-based; bind(C) names/arity of the .F90 module match; padfstring contract; ids strictly increasing and never reused for every history; dead/negative/unissued ids change nothing; double destroy; per-instance isolation; the settings model refines a plain store (call_refines, calls_refine, capi_refines) with set/get, independence, rejection and default laws; results depend on the id only through the rendered default names (render theorems, shared with C06). Tie: translator re-run every check + random (quick) and exhaustive length<=4 (thorough) call sequences through C API, C++ object and F functions vs pmodel api; accessor scenario over live and dead ids after real runs.',
+    note='Trusted: gen_api.py regex extraction (fails closed on unrecognised functions), harness/ph_api.cpp. No Fortran compiler: the .F90 module is checked textually; the F functions are called from C++. Where IPhreeqc.h is silent about invalid ids the table records the behaviour as built (marked silent*). Run* effects on the settings are modelled only for inputs consisting of one SELECTED_OUTPUT block.',
 )
